@@ -111,7 +111,8 @@ func serveFault(spec string) {
 		if t.Handle {
 			w := when
 			if t.Late > 0 {
-				w = lateWhen(t.Late)
+				_, fam := splitWhen(when)
+				w = joinWhen(lateWhen(t.Late), fam) // the family of the engine (family.go) stays
 			}
 
 			err := ok.setWhen(w)
@@ -517,11 +518,19 @@ func handleLetters(s *sys, pres []string) (prefixes [][]int, fileOps []int, clos
 
 	var opens [][]int
 
-	subRoot := -1
+	// opens through the pooled Sub file system: through Sub("/") of the FailFS and,
+	// depth of derivation (family.go), through Sub("/") of that view - the handle
+	// of a grandchild; a system that starts with the pool filled opens through
+	// what is there
+	subRoot, reSub := -1, -1
 
 	for i, o := range s.ops {
 		if o.Store == "sub" && o.C.A == "/" {
-			subRoot = i
+			if o.Thru == "sub" {
+				reSub = i
+			} else {
+				subRoot = i
+			}
 		}
 	}
 
@@ -534,9 +543,19 @@ func handleLetters(s *sys, pres []string) (prefixes [][]int, fileOps []int, clos
 				closeOp = i
 			}
 		case o.Store == "file" && o.Slot == 0 && o.Thru == "failfs":
+			// a family whose function is installed through the root: the opens on the
+			// root are those of the engine without family
+			if s.fam == nil || s.fam.Target != "root" {
+				opens = append(opens, []int{i})
+			}
+		case o.Store == "file" && o.Slot == 0 && o.Thru == "sub" && s.fam != nil:
 			opens = append(opens, []int{i})
 		case o.Store == "file" && o.Slot == 0 && o.Thru == "sub" && subRoot >= 0:
 			opens = append(opens, []int{subRoot, i})
+
+			if reSub >= 0 {
+				opens = append(opens, []int{subRoot, reSub, i})
+			}
 		}
 	}
 
@@ -1183,14 +1202,17 @@ func (fe *faultEngine) runLevel(deadline time.Time, report func(sig map[string]s
 }
 
 // runHandle executes the handle programmes (expandHandle) of every opening
-// prefix: pool opens of slot 0 (directly and through Sub("/")), alone and
-// followed by each File call listed in pres ("*": all of them).
+// prefix: pool opens of slot 0 (directly, through Sub("/") and through
+// Sub("/") of Sub("/"); a system that starts with a family, family.go, through
+// the view its pool holds), alone and followed by each File call listed in
+// pres ("*": all of them).
 //
 // An engine with a schedule (when.go: "objects first, function afterwards")
 // runs every programme once per position at which the function of the plan can
 // be installed inside its opening prefix: after the Sub, after the open, after
 // the pre call - the handle (and the Sub file system it came from) exists
-// before the function that has to govern it.
+// before the function that has to govern it. An engine with a family and no
+// schedule does both: function first, and function at every position inside.
 func (fe *faultEngine) runHandle(pres []string, deadline time.Time, report func(sig map[string]string, replay any, count int)) {
 	if fe.HarnessErr != "" {
 		return
@@ -1200,11 +1222,17 @@ func (fe *faultEngine) runHandle(pres []string, deadline time.Time, report func(
 
 	var whole, tasks []ftask
 
+	sched, fam := splitWhen(fe.When)
+
 	for _, p := range prefixes {
-		if fe.When == "" {
+		if sched == "" {
+			// the function of the plan is there before the first call; an engine with a
+			// family (family.go) goes on to install it inside the prefix as well
 			whole = append(whole, ftask{Prefix: p, Handle: true})
 
-			continue
+			if fam == "" {
+				continue
+			}
 		}
 
 		for late := 1; late <= len(p); late++ {
